@@ -67,28 +67,35 @@ def shape_indices(shape):
     return out
 
 
-def drv(mw, vals, inplace, shape="main"):
-    fields = []
-    for k, (kind, x) in SHAPES[shape]:
-        if kind == "s":
-            v = vals[x]
-        elif kind == "c":
-            v = list(x) if isinstance(x, list) else x
-        elif kind == "n":
-            v = NameParts(first=[vals[i] for i in x.get("first", [])], von=[vals[i] for i in x.get("von", [])],
-                          last=[vals[i] for i in x.get("last", [])], jr=[vals[i] for i in x.get("jr", [])])
-        else:
-            v = [vals[x], "q"]
-        fields.append(M.Field(k, v))
-    e = M.Entry("article", "ek", fields, 3, "rawE")
-    s = M.String("sk", vals[5], 1, "rawS")
-    p = M.Preamble(vals[6], 2, "rawP")
-    c = M.ExplicitComment("cc", 4, "rawC")
-    f = M.ParsingFailedBlock(Exception("x"), 5, "rawF")
-    lib = Library([s, p, e, c, f])
-    mw._allow_inplace_modification = inplace
-    out = mw.transform(lib)
-    return out.blocks, None, (s, p, e, c, f)
+def drv(mw, vals, inplace, shape="main", reuse=False):
+    # reuse: the SAME middleware instance has already transformed an equal library (built afresh from the same values)
+    # before the observed call - a conversion failure must be contained on every call, not only on the first one
+    rounds = 2 if reuse else 1
+    out = None
+    orig = None
+    for _rnd in range(rounds):
+        fields = []
+        for k, (kind, x) in SHAPES[shape]:
+            if kind == "s":
+                v = vals[x]
+            elif kind == "c":
+                v = list(x) if isinstance(x, list) else x
+            elif kind == "n":
+                v = NameParts(first=[vals[i] for i in x.get("first", [])], von=[vals[i] for i in x.get("von", [])],
+                              last=[vals[i] for i in x.get("last", [])], jr=[vals[i] for i in x.get("jr", [])])
+            else:
+                v = [vals[x], "q"]
+            fields.append(M.Field(k, v))
+        e = M.Entry("article", "ek", fields, 3, "rawE")
+        s = M.String("sk", vals[5], 1, "rawS")
+        p = M.Preamble(vals[6], 2, "rawP")
+        c = M.ExplicitComment("cc", 4, "rawC")
+        f = M.ParsingFailedBlock(Exception("x"), 5, "rawF")
+        lib = Library([s, p, e, c, f])
+        mw._allow_inplace_modification = inplace
+        out = mw.transform(lib)
+        orig = (s, p, e, c, f)
+    return out.blocks, None, orig
 
 
 def check(res, vals, inplace, E, shape="main"):
@@ -168,7 +175,7 @@ def check(res, vals, inplace, E, shape="main"):
     return conds, (e_err or s_err)
 
 
-def native_replay(kind, vals, inplace, shape="main"):
+def native_replay(kind, vals, inplace, shape="main", reuse=False):
     """replay with a concrete converter implementing the same function of its input"""
     import logging
     logging.disable(logging.CRITICAL)
@@ -186,22 +193,22 @@ def native_replay(kind, vals, inplace, shape="main"):
         latex_to_text = _do
     try:
         mw = LatexEncodingMiddleware(encoder=Conv()) if kind == "enc" else LatexDecodingMiddleware(decoder=Conv())
-        res = drv(mw, vals, inplace, shape)
+        res = drv(mw, vals, inplace, shape, reuse)
     except Exception as ex:  # noqa
         from pysym.harness import guard_repo_exception
         guard_repo_exception(ex)
-        return {"input": [kind, vals, inplace, shape], "observed": f"raised {type(ex).__name__}: {ex}", "expected": "error block, no exception"}
+        return {"input": [kind, vals, inplace, shape, {"same instance used on an equal library before": reuse}], "observed": f"raised {type(ex).__name__}: {ex}", "expected": "error block, no exception"}
     conds, _ = check(res, vals, inplace, lambda a, b: a == b, shape)
     if all((c is True) or (not isinstance(c, bool) and False) or bool(c) for c in conds):
         return None
     blocks = res[0]
-    return {"input": [kind, vals, inplace, shape],
+    return {"input": [kind, vals, inplace, shape, {"same instance used on an equal library before": reuse}],
             "observed": [(type(b).__name__, repr(getattr(getattr(b, "ignore_error_block", b), "value", None))) for b in blocks[:1]] +
                         [(type(blocks[2]).__name__, [(f.key, repr(f.value)) for f in getattr(blocks[2], "ignore_error_block", blocks[2]).fields])],
             "expected": "only text values converted (converter fails on values starting with 'y'), types kept, failures contained"}
 
 
-def task(kind, inplace, shape="main", empty_message=False):
+def task(kind, inplace, shape="main", empty_message=False, reuse=False):
     EMPTY_MESSAGE[0] = empty_message
     eng = Engine()
     rec = Recorder(eng)
@@ -218,16 +225,18 @@ def task(kind, inplace, shape="main", empty_message=False):
         stub = make_stub(eng, "latex_to_text")
         mw = LatexDecodingMiddleware(decoder=stub)
     E = eng.I.models.eq_simple
-    worlds = eng.run(drv, [mw, vals, inplace, shape])
+    worlds = eng.run(drv, [mw, vals, inplace, shape, reuse])
     for W in worlds:
         def rp(m):
-            return native_replay(kind, eng.model_value(m, vals), inplace, shape)
+            return native_replay(kind, eng.model_value(m, vals), inplace, shape, reuse)
         if W.exc is not None:
             rec.require(W, True, "no-exception", rp)
             continue
         conds, failed = check(W.result, vals, inplace, E, shape)
         rec.require(W, b_not(b_all(conds)), "scope-types-containment", rp)
         rec.witness("converter-failed" if failed else "all-converted", W)
+        if reuse and failed:
+            rec.witness("converter-failed-on-second-use", W)
     if worlds:
         rec.samples.append({"kind": kind, "inplace": inplace, "worlds": len(worlds)})
         rec.validated += 1
@@ -415,18 +424,22 @@ def main():
     chk.bounds = {"library": "String, Preamble, Entry, ExplicitComment, ParsingFailedBlock; every text one symbolic character (in the main shape one text has a second character over x / % and one name-part string is two words joined by a blank); three entry shapes: main = (str, int, NameParts(first 1 word, last 2 words), str, list of ints, list of str); names-only = a single NameParts field with 5 strings over all four parts; dup-keys = note/title/note/year(int)/title with repeated field keys",
                   "converter failure": "RuntimeError with a message, and (three extra tasks) ValueError() without any message", "converter": "a function of its input: raises on values starting with 'y', returns the empty string on values starting with 'z', else returns '<'+input+'>' (values are symbolic over {x,y} - one field value and the @string value over {x,y,z} - so all 2^6 failure patterns, all equal-value patterns and conversions to '' occur)",
                   "constructor sequences": "two default-built encoder and decoder middlewares in a row, keep_math / enclose_urls / keep_braced_groups / keep_math_mode each symbolic over {None, True, False}; the pylatexenc classes are recording stubs, the claim is about what bibtexparser hands to them (which rules, which options, no shared state)",
+                  "instance reuse": "four extra tasks (encoder/decoder x main/names-only, copy mode): the same middleware instance has transformed an equal, separately built library before the observed call",
                   "options": "encoder / decoder middleware x allow_inplace_modification in {True, False}; custom converter vs. option conflicts in the constructors"}
     chk.assumptions = ["the pylatexenc conversion itself is a stub: what it returns is arbitrary, so the round-trip clause decode(encode(t)) == t is NOT claimed (not encodable within reach: third-party, table/regex driven)",
                        "default-constructed middlewares (which build pylatexenc objects) are not interpreted; only the custom-converter path of the constructors is"]
     chk.stubs = ["pylatexenc UnicodeToLatexEncoder.unicode_to_latex / LatexNodes2Text.latex_to_text -> nondeterministic stub",
                  "constructor task: UnicodeToLatexEncoder / UnicodeToLatexConversionRule / LatexNodes2Text / MacroTextSpec / get_default_latex_context_db -> recording classes"]
-    chk.expected_vacuity = ["converter-failed", "all-converted", "two-constructions"]
+    chk.expected_vacuity = ["converter-failed", "all-converted", "two-constructions", "converter-failed-on-second-use"]
     chk.add_task("ctor-sequence", task_ctor_seq)
     # a converter that fails with an exception carrying no message (a failure is a failure, whatever str(e) is)
     for kind, shape in (("enc", "main"), ("dec", "main"), ("enc", "names-only")):
         chk.add_task(f"{kind}-inplace1-{shape}-emptymsg", task, kind=kind, inplace=True, shape=shape, empty_message=True)
     for kind, inplace, shape in itertools.product(("enc", "dec"), (True, False), sorted(SHAPES)):
         chk.add_task(f"{kind}-inplace{int(inplace)}-{shape}", task, kind=kind, inplace=inplace, shape=shape)
+    # one middleware instance used twice on equal libraries: the second call must convert and contain failures like the first
+    for kind, shape in itertools.product(("enc", "dec"), ("main", "names-only")):
+        chk.add_task(f"{kind}-inplace0-{shape}-reused-instance", task, kind=kind, inplace=False, shape=shape, reuse=True)
     chk.add_task("constructors", task_ctor)
     chk.run()
 
